@@ -39,7 +39,9 @@
 (*  (c) display_format, debug_probe, debug_novel, min_avg_coverage are     *)
 (*      reset to their defaults on load and then re-applied from the user  *)
 (*      parameters (genotype.py:189-190).  Harmless iff the profile file's *)
-(*      options section does not set them (OptionsMaySetReset = FALSE).    *)
+(*      options section does not set them (MC: OptionsMaySetReset = FALSE; *)
+(*      with TRUE TLC shows params is not restored -- confirmed against    *)
+(*      the code: finding C17-reset-param-from-options).                   *)
 (*  (d) is_long_read is not restored; only a log message depends on it.    *)
 (*                                                                         *)
 (* UNINTENTIONAL difference (code as is, AliasNorm = TRUE): _make_coverage *)
@@ -47,7 +49,10 @@
 (* with the observations of every non-insertion op at a position outside   *)
 (* the RefSeq range (deleted bases of reads on the pseudogene / flanks).   *)
 (* The dump is written afterwards, so the pickled norm already contains    *)
-(* them and the replay adds them a second time.                            *)
+(* them and the replay adds them a second time (finding                    *)
+(* C17-foreign-ops-counted-twice; NA10860: 19 positions).                  *)
+(* The archive also holds <prefix>.<GENE>.genome (the build; read back by  *)
+(* detect_genome when --genome is not given) -- field "genome".            *)
 (***************************************************************************)
 EXTENDS Integers, Sequences, FiniteSets, TLC
 
